@@ -1,0 +1,52 @@
+//go:build verif
+
+package tcpclv4
+
+// Hooks for the out-of-tree verification harness (build tag verif). Add-only: nothing here is
+// compiled into a normal build. internal/msgs can only be imported from inside this package, so
+// the message codec (contact header, the seven message types, ReadMessage / NewMessage) is
+// re-exported here. The XFER_* aliases and constructors live in verif_export_tcpcl.go.
+
+import (
+	"io"
+
+	"github.com/dtn7/dtn7-go/pkg/cla/tcpclv4/internal/msgs"
+)
+
+type (
+	VerifContactHeader   = msgs.ContactHeader
+	VerifContactFlags    = msgs.ContactFlags
+	VerifSessInit        = msgs.SessionInitMessage
+	VerifSessTerm        = msgs.SessionTerminationMessage
+	VerifSessTermFlags   = msgs.SessionTerminationFlags
+	VerifSessTermCode    = msgs.SessionTerminationCode
+	VerifKeepalive       = msgs.KeepaliveMessage
+	VerifMsgReject       = msgs.MessageRejectionMessage
+	VerifMsgRejectReason = msgs.MessageRejectionReason
+)
+
+// VerifReadMessage exposes msgs.ReadMessage: parse the next message from the stream.
+func VerifReadMessage(r io.Reader) (msgs.Message, error) { return msgs.ReadMessage(r) }
+
+// VerifNewMessage exposes msgs.NewMessage: an empty message for a type code.
+func VerifNewMessage(typeCode uint8) (msgs.Message, error) { return msgs.NewMessage(typeCode) }
+
+// Constructors of the message types not already exported for the transfer harness.
+func VerifNewContactHeader(flags msgs.ContactFlags) *msgs.ContactHeader {
+	return msgs.NewContactHeader(flags)
+}
+func VerifNewSessInit(keepalive uint16, segmentMru, transferMru uint64, nodeId string) *msgs.SessionInitMessage {
+	return msgs.NewSessionInitMessage(keepalive, segmentMru, transferMru, nodeId)
+}
+func VerifNewSessTerm(flags msgs.SessionTerminationFlags, reason msgs.SessionTerminationCode) *msgs.SessionTerminationMessage {
+	return msgs.NewSessionTerminationMessage(flags, reason)
+}
+func VerifNewKeepalive() *msgs.KeepaliveMessage { return msgs.NewKeepaliveMessage() }
+func VerifNewMsgReject(reason msgs.MessageRejectionReason, header uint8) *msgs.MessageRejectionMessage {
+	return msgs.NewMessageRejectionMessage(reason, header)
+}
+
+// IsValid of the three reason-code types (what Unmarshal checks).
+func VerifSessTermCodeValid(c uint8) bool  { return msgs.SessionTerminationCode(c).IsValid() }
+func VerifRefusalCodeValid(c uint8) bool   { return msgs.TransferRefusalCode(c).IsValid() }
+func VerifMsgRejectCodeValid(c uint8) bool { return msgs.MessageRejectionReason(c).IsValid() }
